@@ -15,7 +15,9 @@ IntTexts == {s \in DigitStrings(MaxDigits) : s # <<>>}
 FloatTexts == {[neg |-> n, int |-> i, frac |-> f, eneg |-> en, exp |-> e] :
                  n \in BOOLEAN, i \in {<<>>, <<0>>, <<1>>, <<1, 2>>, <<9, 9, 9>>}, f \in {<<>>, <<5>>, <<0, 1>>, <<2, 5, 0>>},
                  en \in BOOLEAN, e \in {<<>>, <<0>>, <<3>>, <<1, 0>>, <<3, 0, 0>>}}
-Items == CASE Mode = "format" -> Family(Ks) [] Mode = "parse" -> IntTexts [] OTHER -> {ft \in FloatTexts : ~(ft.eneg /\ ft.exp = <<>>) /\ ~(ft.int = <<>> /\ ft.frac = <<>>)}
+\* an optional numeric column: short integer texts and the '.' placeholder (also an empty cell) that stands for a missing value
+OptTexts == {s \in IntTexts : Len(s) <= 2} \cup {<<DOT>>, <<>>}
+Items == CASE Mode = "format" -> Family(Ks) [] Mode = "parse" -> IntTexts [] Mode = "optional" -> OptTexts [] OTHER -> {ft \in FloatTexts : ~(ft.eneg /\ ft.exp = <<>>) /\ ~(ft.int = <<>> /\ ft.frac = <<>>)}
 
 Init == batch = <<>>
 Add(x) == Len(batch) < MaxBatch /\ batch' = Append(batch, x)
@@ -24,6 +26,7 @@ Spec == Init /\ [][Next]_vars
 
 Result(b) == CASE Mode = "format" -> [i \in DOMAIN b |-> CanonText(b[i])]
                [] Mode = "parse"  -> [i \in DOMAIN b |-> ParseInt(b[i])]
+               [] Mode = "optional" -> [i \in DOMAIN b |-> IF b[i] \in {<<DOT>>, <<>>} THEN <<0, <<>>>> ELSE ParseInt(b[i])]      \* <<0, <<>>>> = missing
                [] OTHER           -> [i \in DOMAIN b |-> FloatText(b[i])]
 \* design invariants
 FormatParseInverse == Mode = "format" => \A i \in DOMAIN batch : IsCanonical(batch[i]) /\ ParseInt(CanonText(batch[i])) = batch[i]
